@@ -6,7 +6,7 @@
      C. C10 / C11: for every directory content the translated guesser reader and the translated
         scorer reader build tables that agree on every n-gram and level. *)
 From Coq Require Import List Arith ZArith NArith Bool Lia.
-From Pcfg Require Import TextFile TextFileProofs LoaderRt Loader2Rt Loader2RtProofs Loader2Model.
+From Pcfg Require Import TextFile TextFileProofs LoaderRt Loader2Rt Loader2RtProofs Loader2Model Loader2GenProofs.
 Import ListNotations.
 
 (* ================================================================ A. the models of TextFile.v *)
@@ -106,3 +106,170 @@ Proof.
 Qed.
 
 End Bridge.
+
+(* ================================================================ C. the two readers agree *)
+
+(* Both readers are functions of the ITEMS of the level files (Loader2Model.omen_guesser_load /
+   omen_scorer_load: level_lines of IP / CP.level, ln_lines of LN.level).  For the same items the
+   guesser's bucketed tables and the scorer's dicts say the same about every n-gram and level. *)
+
+Lemma dict_get_set {V : Type} (s k : str) (v : V) d :
+  dict_get s (dict_set k v d) = if str_eqb s k then Some v else dict_get s d.
+Proof.
+  induction d as [|[k' v'] r IH]; cbn [dict_set dict_get]; [reflexivity|].
+  destruct (str_eqb k k') eqn:E; cbn [dict_get].
+  - apply str_eqb_eq in E. subst k'. now destruct (str_eqb s k).
+  - rewrite IH. destruct (str_eqb s k') eqn:E2; [|reflexivity].
+    apply str_eqb_eq in E2. subst k'. rewrite str_eqb_sym, E. reflexivity.
+Qed.
+
+Lemma ep_dict_app its it : ep_dict (its ++ [it]) = dict_set (snd it) (fst it) (ep_dict its).
+Proof. unfold ep_dict. now rewrite fold_left_app. Qed.
+
+(* the scorer's dict: the level of an n-gram is the level of its line (no n-gram twice) *)
+Lemma ep_dict_get (its : list (Z * str)) s z :
+  NoDup (map snd its) -> (dict_get s (ep_dict its) = Some z <-> In (z, s) its).
+Proof.
+  induction its as [|it r IH] using rev_ind; intros Hnd.
+  - cbn. split; [discriminate | contradiction].
+  - rewrite ep_dict_app, dict_get_set. rewrite map_app in Hnd. cbn [map] in Hnd.
+    apply NoDup_remove in Hnd. rewrite app_nil_r in Hnd. destruct Hnd as [Hnd Hnot].
+    destruct (str_eqb s (snd it)) eqn:E.
+    + apply str_eqb_eq in E. subst s. split.
+      * intros H. inversion H. subst z. apply in_or_app. right. left. now destruct it.
+      * intros H. apply in_app_or in H. destruct H as [H|[H|[]]].
+        -- exfalso. apply Hnot. apply in_map_iff. now exists (z, snd it).
+        -- destruct it. inversion H. reflexivity.
+    + rewrite (IH Hnd). split.
+      * intros H. apply in_or_app. now left.
+      * intros H. apply in_app_or in H. destruct H as [H|[H|[]]]; [exact H|].
+        destruct it. inversion H. subst. cbn in E. now rewrite str_eqb_refl in E.
+Qed.
+
+(* the guesser's buckets: grammar['ip'][l] lists the n-grams of the lines of level l *)
+Lemma ip_bucket_in (its : list (Z * str)) s l :
+  (l < 11)%nat -> (In s (nth l (ip_buckets its) []) <-> In (Z.of_nat l, s) its).
+Proof.
+  intros Hl. unfold ip_buckets.
+  rewrite (nth_indep _ [] (map snd (filter (fun it => Z.eqb (fst it) (Z.of_nat 0%nat)) its))) by (now rewrite map_length, seq_length).
+  rewrite (map_nth (fun lvl => map snd (filter (fun it : Z * str => Z.eqb (fst it) (Z.of_nat lvl)) its)) (seq 0 11) 0%nat l).
+  rewrite seq_nth by exact Hl. cbn [Nat.add]. rewrite in_map_iff. split.
+  - intros ((z & s') & Hs & Hin). apply filter_In in Hin. destruct Hin as [Hin Hz]. cbn in Hs, Hz. subst s'.
+    apply Z.eqb_eq in Hz. now subst z.
+  - intros Hin. exists (Z.of_nat l, s). split; [reflexivity|]. apply filter_In. split; [exact Hin|]. cbn. apply Z.eqb_refl.
+Qed.
+
+(* C10 / C11, IP.level: the generator finds an initial n-gram at level l exactly when the scorer
+   gives it level l *)
+Theorem ip_tables_agree (ip : list (Z * str)) :
+  NoDup (map snd ip) ->
+  forall s l, (l < 11)%nat ->
+    (In s (nth l (ip_buckets ip) []) <-> dict_get s (ep_dict ip) = Some (Z.of_nat l)).
+Proof. intros Hnd s l Hl. rewrite ip_bucket_in by exact Hl. symmetry. now apply ep_dict_get. Qed.
+
+(* LN.level: grammar['ln'][l] holds len - (ngram - 1) exactly for the lengths len >= ngram whose line
+   says l, which is self.ln[len] of the scorer (line len of the file; self.ln starts with '10') *)
+Lemma ln_idx_in (lv : list Z) len l :
+  In (len, l) (combine (map Z.of_nat (seq 1 (length lv))) lv) <->
+  exists i, (i < length lv)%nat /\ len = Z.of_nat (S i) /\ nth_error lv i = Some l.
+Proof.
+  assert (G : forall (lv : list Z) start, In (len, l) (combine (map Z.of_nat (seq start (length lv))) lv) <->
+              exists i, (i < length lv)%nat /\ len = Z.of_nat (start + i) /\ nth_error lv i = Some l).
+  { clear lv. induction lv as [|x r IH]; intros start; cbn [length seq map combine].
+    - split; [contradiction | intros (i & Hi & _); lia].
+    - cbn [In]. rewrite IH. split.
+      + intros [H|(i & Hi & Hl & Hn)].
+        * inversion H. subst. exists 0%nat. split; [lia|]. split; [f_equal; lia | reflexivity].
+        * exists (S i). split; [lia|]. split; [rewrite Hl; f_equal; lia | exact Hn].
+      + intros (i & Hi & Hl & Hn). destruct i as [|i].
+        * left. cbn in Hn. inversion Hn. subst. f_equal. f_equal. lia.
+        * right. exists i. split; [lia|]. split; [rewrite Hl; f_equal; lia | exact Hn]. }
+  rewrite (G lv 1%nat). split; intros (i & Hi & Hl & Hn); exists i; (split; [exact Hi|]); (split; [|exact Hn]); rewrite Hl; f_equal.
+Qed.
+
+Theorem ln_tables_agree (n : Z) (lv : list Z) :
+  forall i l, (i < length lv)%nat -> (l < 11)%nat -> (n <= Z.of_nat (S i))%Z ->
+    (In (Z.of_nat (S i) - (n - 1))%Z (nth l (ln_guesser n lv) []) <-> nth_error lv i = Some (Z.of_nat l)).
+Proof.
+  intros i l Hi Hl Hn. unfold ln_guesser. cbv zeta.
+  set (idx := combine (map Z.of_nat (seq 1 (length lv))) lv).
+  set (f := fun lvl : nat => map (fun p : Z * Z => (fst p - (n - 1))%Z)
+                             (filter (fun p : Z * Z => Z.eqb (snd p) (Z.of_nat lvl) && (n <=? fst p)%Z) idx)).
+  rewrite (nth_indep _ [] (f 0%nat)) by (now rewrite map_length, seq_length).
+  rewrite (map_nth f (seq 0 11) 0%nat l). rewrite seq_nth by exact Hl. cbn [Nat.add]. unfold f.
+  rewrite in_map_iff. split.
+  - intros ((len & x) & Hk & Hin). apply filter_In in Hin. destruct Hin as [Hin Hc]. cbn [fst snd] in Hk, Hc.
+    apply andb_true_iff in Hc. destruct Hc as [Hx _]. apply Z.eqb_eq in Hx. subst x.
+    apply ln_idx_in in Hin. destruct Hin as (j & Hj & Hlen & Hnth). assert (j = i) by lia. now subst j.
+  - intros Hnth. exists (Z.of_nat (S i), Z.of_nat l). split; [reflexivity|]. apply filter_In. split.
+    + apply ln_idx_in. now exists i.
+    + cbn [fst snd]. rewrite Z.eqb_refl. cbn [andb]. now apply Z.leb_le.
+Qed.
+
+(* CP.level: grammar['cp'][prefix][l] lists the last characters of the n-grams prefix + c of the lines
+   of level l; the scorer's self.cp[prefix + c] is that level *)
+Definition cp_chars (d : list (pstr * list (Z * pstr))) (p : pstr) (l : Z) : pstr :=
+  match cget p d with
+  | Some m => match zget l m with Some cs => cs | None => [] end
+  | None => []
+  end.
+
+Lemma cget_cset_other p q m d : str_eqb p q = false -> cget p (cset q m d) = cget p d.
+Proof.
+  intros Hn. induction d as [|[k m'] r IH]; cbn [cset cget]; [now rewrite Hn|].
+  destruct (str_eqb q k) eqn:E; cbn [cget].
+  - destruct (str_eqb p k) eqn:E2; [|reflexivity]. apply str_eqb_eq in E, E2. subst. now rewrite str_eqb_refl in Hn.
+  - now rewrite IH.
+Qed.
+
+Lemma zget_zset_other l l' cs m : Z.eqb l l' = false -> zget l (zset l' cs m) = zget l m.
+Proof.
+  intros Hn. induction m as [|[k cs'] r IH]; cbn [zset zget]; [now rewrite Hn|].
+  destruct (Z.eqb l' k) eqn:E; cbn [zget].
+  - destruct (Z.eqb l k) eqn:E2; [|reflexivity]. apply Z.eqb_eq in E, E2. subst. now rewrite Z.eqb_refl in Hn.
+  - now rewrite IH.
+Qed.
+
+Lemma cp_chars_add pre lvl ch d p l :
+  cp_chars (cp_add pre lvl ch d) p l = cp_chars d p l ++ (if str_eqb p pre && Z.eqb l lvl then [ch] else []).
+Proof.
+  rewrite cp_add_spec, zdict_add_spec. unfold cp_chars.
+  destruct (str_eqb p pre) eqn:Ep.
+  - apply str_eqb_eq in Ep. subst p. rewrite cget_cset. cbn [andb].
+    destruct (cget pre d) as [m|]; cbn [zget].
+    + destruct (Z.eqb l lvl) eqn:El.
+      * apply Z.eqb_eq in El. subst l. rewrite zget_zset. now destruct (zget lvl m).
+      * rewrite zget_zset_other by exact El. now rewrite app_nil_r.
+    + destruct (Z.eqb l lvl) eqn:El.
+      * apply Z.eqb_eq in El. subst l. cbn [zset zget]. now rewrite Z.eqb_refl.
+      * cbn [zset zget]. now rewrite El.
+  - rewrite cget_cset_other by exact Ep. cbn [andb]. now rewrite app_nil_r.
+Qed.
+
+Lemma cp_fold_in (its : list (Z * pstr)) d :
+  fold_left cp_fold_step its (Some []) = Some d ->
+  forall p l c, In c (cp_chars d p l) <-> In (l, p ++ [c]) its.
+Proof.
+  revert d. induction its as [|it r IH] using rev_ind; intros d H p l c.
+  - cbn in H. inversion H. subst d. cbn. tauto.
+  - rewrite fold_left_app in H. cbn [fold_left] in H.
+    destruct (fold_left cp_fold_step r (Some [])) as [d0|] eqn:E0; [|discriminate H].
+    cbn [cp_fold_step] in H. unfold cp_step in H. destruct it as [lvl k]. cbn [fst snd] in H.
+    destruct (list_last_cases k) as [->|(pre & ch & ->)]; [discriminate H|].
+    rewrite rev_app_distr in H. cbn [rev app] in H. rewrite rev_involutive in H. inversion H. subst d. clear H.
+    rewrite cp_chars_add, in_app_iff, (IH d0 eq_refl). split.
+    + intros [Hin|Hin]; [apply in_or_app; now left|].
+      destruct (str_eqb p pre) eqn:Ep; destruct (Z.eqb l lvl) eqn:El; cbn [andb] in Hin; try contradiction.
+      destruct Hin as [<-|[]]. apply str_eqb_eq in Ep. apply Z.eqb_eq in El. subst. apply in_or_app. right. now left.
+    + intros Hin. apply in_app_or in Hin. destruct Hin as [Hin|[Hin|[]]]; [now left|].
+      inversion Hin as [[Hl Hk]]. apply app_inj_tail in Hk. destruct Hk as [-> ->]. right.
+      now rewrite str_eqb_refl, Z.eqb_refl; left.
+Qed.
+
+Theorem cp_tables_agree (cp : list (Z * pstr)) d :
+  cp_dict cp = Some d -> NoDup (map snd cp) ->
+  forall p l c, In c (cp_chars d p l) <-> dict_get (p ++ [c]) (ep_dict cp) = Some l.
+Proof.
+  intros Hd Hnd p l c. unfold cp_dict in Hd. rewrite cp_dict_fold in Hd.
+  rewrite (cp_fold_in cp d Hd). symmetry. now apply ep_dict_get.
+Qed.
